@@ -333,6 +333,7 @@ def load_known():
 
 
 def finish(ctx, pinfo, gate_hits, build_ok, build_log, trusted_base, rule):
+    gen_cleanup()
     os.makedirs(REPLAYS, exist_ok=True)
     known = [k for k in load_known() if k["property"] == ctx.pid and k.get("status") == "known"]
     lines, viol = [], 0
@@ -421,6 +422,28 @@ def finish(ctx, pinfo, gate_hits, build_ok, build_log, trusted_base, rule):
         len(ctx.distinct), ctx.disagreements_checked, len(ctx.failures), len(ctx.broken) + len(proof_problems), time.time() - ctx.t0))
     return 1 if viol else 0
 
+
+
+_GEN_DIR = [None]
+
+
+def gen_dir():
+    """a directory private to this process for the Gallina text generated from /repo's source and its compiled link theorems: checks
+    that run in parallel must not compile into one shared directory (coq/gen holds the committed sources only)"""
+    if _GEN_DIR[0] is None:
+        d = os.path.join(ROOT, "build", "genwork", "%d" % os.getpid())
+        import shutil
+        shutil.rmtree(d, ignore_errors=True)
+        os.makedirs(d)
+        _GEN_DIR[0] = d
+    return _GEN_DIR[0]
+
+
+def gen_cleanup():
+    if _GEN_DIR[0] is not None:
+        import shutil
+        shutil.rmtree(_GEN_DIR[0], ignore_errors=True)
+        _GEN_DIR[0] = None
 
 
 T_LAST = [time.time()]
